@@ -10,14 +10,25 @@ C06 — Serde formats round-trip protocol types and consensus parameters.
 Proved here (for the model): (1) the two binary formats are invertible on every well-typed serde
 tree (any nesting, any sizes); (2) the hand-written two-layout `Policies` serde round-trips for every
 bit mask and every value array reachable through the API, through both visitor entry points, and the
-three places that choose the layout agree; (3) the upgrade checksum/decoding logic.
-NOT modelled (exercised by the harness oracle only): serde_json's text layer, the derive-generated
-`Deserialize` impls (that they request the shape their `Serialize` produced), bitflags' text format.
+three places that choose the layout agree; (3) the upgrade checksum/decoding logic; (4) the binary round
+trip instantiated at the shape of EVERY real type reachable from Transaction, Receipt, Input, Output,
+Policies, ConsensusParameters, GasCosts — the shapes are regenerated from the Rust sources
+(`Gen/SerdeShapes.lean`, tools/gen/serde_shapes.py) and proved well formed, closed and inhabited;
+(5) `Policies` end to end: bytes → decoder with the generated layout-dependent shape → `visit_seq` → value;
+(6) `Policies` through serde_json at the level of the JSON object (bitflags text format, field order,
+duplicates, missing/unknown fields).
+The generated shapes and the model decoders are validated against the real crates on every run (driver
+`tree`/`de` requests: generated shape of every recorded tree, decoders on real and malformed bytes).
+NOT modelled (exercised by the harness oracle only): serde_json's text layer and the JSON form of the
+derive-generated types; the hex form of unknown bits in the bitflags text is tied by correspondence only.
 -/
 import FuelVerif.Lemmas.SerdeTree
 import FuelVerif.Lemmas.PoliciesSerde
+import FuelVerif.Lemmas.SerdeCheck
+import FuelVerif.Lemmas.PoliciesWire
+import FuelVerif.Lemmas.PoliciesJson
 namespace FuelVerif.C06
-open FuelVerif.Serde FuelVerif.PoliciesSerde FuelVerif.Gen.Policies
+open FuelVerif.Serde FuelVerif.PoliciesSerde FuelVerif.Gen.Policies FuelVerif.Gen.SerdeShapes FuelVerif.PoliciesJson
 
 /-! ### (1) binary formats -/
 
@@ -189,6 +200,204 @@ theorem upgrade_checksum_mismatch {CP : Type} (H : Bytes → Bytes) (dec : Bytes
     upgradeCompute H dec ws i c = .error .checksumMismatch := by
   simp [upgradeCompute, hw, hc]
 
+/-! ### (4) the shapes of the real types (regenerated from the Rust sources by tools/gen/serde_shapes.py) -/
+
+/-- obligations on the generated table: the list of type names is complete and names are distinct
+(`ofString?` inverts `toString`), every generated shape is well formed — each enum has at least one variant
+and its variant count fits the `u32` index both formats write — and the table is closed: every type a
+definition refers to has a shape of its own. (That the Lean definitions only mention defined shapes is
+enforced by elaboration; `refs` restates it on the names the translator recorded.) -/
+theorem generated_shapes_closed :
+    (∀ T : TypeName, T ∈ TypeName.all) ∧
+    (∀ T : TypeName, TypeName.ofString? T.toString = some T) ∧
+    (∀ T : TypeName, wfB (shapeOf T) = true) ∧
+    refs.map (·.1) = TypeName.all.map TypeName.toString ∧
+    refs.all (fun nr => nr.2.all (fun r => (TypeName.ofString? r).isSome)) = true := by
+  have hall : ∀ T : TypeName, T ∈ TypeName.all := by intro T; cases T <;> decide +kernel
+  have h2 : TypeName.all.all (fun T => TypeName.ofString? T.toString == some T) = true := by decide +kernel
+  have h3 : TypeName.all.all (fun T => wfB (shapeOf T)) = true := by decide +kernel
+  refine ⟨hall, ?_, ?_, by decide +kernel, by decide +kernel⟩
+  · intro T
+    have := List.all_eq_true.mp h2 T (hall T)
+    simpa using this
+  · intro T
+    exact List.all_eq_true.mp h3 T (hall T)
+
+/-- **postcard round trip of every real type**: for each type `T` reachable from Transaction, Receipt,
+Input, Output, Policies, ConsensusParameters, GasCosts and every serde tree of the shape generated for `T`,
+decoding the encoding (followed by anything) with that shape gives the tree back and consumes exactly it. -/
+theorem real_type_roundtrip (T : TypeName) (tree : Tree) (rest : Bytes) (h : HasShape (shapeOf T) tree) :
+    pcDec (shapeOf T) (pcEnc tree ++ rest) = some (tree, rest) := postcard_roundtrip _ tree rest h
+
+/-- the same for bincode (legacy default options) -/
+theorem real_type_roundtrip_bincode (T : TypeName) (tree : Tree) (rest : Bytes) (h : HasShape (shapeOf T) tree) :
+    bcDec (shapeOf T) (bcEnc tree ++ rest) = some (tree, rest) := bincode_roundtrip _ tree rest h
+
+/-- the decoders the driver runs against the real crates (`pcDecode`/`bcDecode`: shape decoder, then the
+hand-written visitor's own validation at `sel` nodes, decided shape membership `hasShapeB`) satisfy the same
+round trip -/
+theorem real_type_decode_roundtrip (T : TypeName) (tree : Tree) (rest : Bytes)
+    (h : hasShapeB (shapeOf T) tree = true) (hv : leavesOk policiesValid (shapeOf T) tree = true) :
+    pcDecode policiesValid (shapeOf T) (pcEnc tree ++ rest) = some (tree, rest) ∧
+    bcDecode policiesValid (shapeOf T) (bcEnc tree ++ rest) = some (tree, rest) := by
+  have hs := (hasShapeB_iff tree (shapeOf T)).mp h
+  exact ⟨pcDecode_eq_of_ok _ _ _ _ _ (real_type_roundtrip T tree rest hs) hv,
+         bcDecode_eq_of_ok _ _ _ _ _ (real_type_roundtrip_bincode T tree rest hs) hv⟩
+
+/-- non-vacuity for EVERY generated type: each shape has a tree, and that tree round-trips -/
+theorem real_types_inhabited (T : TypeName) :
+    HasShape (shapeOf T) (witness (shapeOf T)) ∧
+    pcDec (shapeOf T) (pcEnc (witness (shapeOf T))) = some (witness (shapeOf T), []) := by
+  have h := witness_hasShape (shapeOf T) (generated_shapes_closed.2.2.1 T)
+  refine ⟨h, ?_⟩
+  have := real_type_roundtrip T _ [] h
+  simpa using this
+
+/-! ### (5) Policies end to end: bytes → generated layout-dependent shape → `visit_seq` → value -/
+
+/-- what `impl Serialize for Policies` emits has the shape generated for `Policies` (so the binary decoders
+are asked for the right layout), for every bit set that fits `u32` and word-sized values -/
+theorem policies_ser_hasShape (p : Policies) (h : Stable p) (hb : p.bits < 2 ^ 32)
+    (hv : ∀ v ∈ p.values, v < 2 ^ 64) : HasShape (shapeOf .TPolicies) (ser p) := by
+  have hm : legacyMaskSer = legacyMaskSeq := by decide
+  have hshape : shapeOf .TPolicies =
+      .sel allMask legacyMaskSeq (.tuple (List.replicate 4 .u64)) (.seq .u64) := rfl
+  rw [hshape]
+  unfold Stable at h
+  rcases p with ⟨bits, vals⟩
+  simp only at hb hv h
+  by_cases hl : isLegacy legacyMaskSer bits = true
+  · have hl' : selLegacy allMask legacyMaskSeq bits = true := by rw [← hm, ← isLegacy_eq_selLegacy]; exact hl
+    simp only [hl, if_true] at h
+    have hlen4 : (vals.take 4).length = 4 := by simp [List.length_take, h.1, policiesNumber]
+    have hsh := listShape_replicate_u64 (vals.take 4) (fun v hv' => hv v (List.mem_of_mem_take hv'))
+    rw [hlen4] at hsh
+    simp only [ser, hl, if_true, HasShape, hl']
+    exact ⟨hb, hsh⟩
+  · have hl0 : isLegacy legacyMaskSer bits = false := by simpa using hl
+    have hl' : selLegacy allMask legacyMaskSeq bits = false := by rw [← hm, ← isLegacy_eq_selLegacy]; exact hl0
+    simp only [ser, hl0, Bool.false_eq_true, if_false, HasShape, hl']
+    refine ⟨hb, ?_, allShape_u64 _ (fun v hv' => hv v (gather_mem bits vals flagBits v hv'))⟩
+    have := gather_length_le bits vals flagBits
+    have h6 : flagBits.length = 6 := by decide
+    simp only [List.length_map]
+    omega
+
+/-- **`postcard::from_bytes::<Policies>(postcard::to_allocvec(&p)) == p`**, composed from the three layers:
+`ser`, the postcard model with the shape generated from policies.rs, and `visit_seq`; for every mask (any
+`u32` bit set, legacy and compact layouts) and every stable value array; trailing bytes are returned untouched -/
+theorem policies_postcard_roundtrip (p : Policies) (h : Stable p) (hb : p.bits < 2 ^ 32)
+    (hv : ∀ v ∈ p.values, v < 2 ^ 64) (rest : Bytes) :
+    policiesFromWire pcDec (policiesToWire pcEnc p ++ rest) = some (p, rest) := by
+  have h1 := real_type_roundtrip .TPolicies (ser p) rest (policies_ser_hasShape p h hb hv)
+  simp [policiesFromWire, policiesToWire, h1, policies_serde_roundtrip_seq p h]
+
+/-- the same through bincode -/
+theorem policies_bincode_roundtrip (p : Policies) (h : Stable p) (hb : p.bits < 2 ^ 32)
+    (hv : ∀ v ∈ p.values, v < 2 ^ 64) (rest : Bytes) :
+    policiesFromWire bcDec (policiesToWire bcEnc p ++ rest) = some (p, rest) := by
+  have h1 := real_type_roundtrip_bincode .TPolicies (ser p) rest (policies_ser_hasShape p h hb hv)
+  simp [policiesFromWire, policiesToWire, h1, policies_serde_roundtrip_seq p h]
+
+/-- the validated decoder the driver runs (`pcDecode`/`bcDecode` with `policiesValid` at the `sel` node)
+accepts the encoding of every stable `Policies` and returns the tree `impl Serialize` produced -/
+theorem policies_decode_roundtrip (p : Policies) (h : Stable p) (hb : p.bits < 2 ^ 32)
+    (hv : ∀ v ∈ p.values, v < 2 ^ 64) (rest : Bytes) :
+    pcDecode policiesValid (shapeOf .TPolicies) (pcEnc (ser p) ++ rest) = some (ser p, rest) ∧
+    bcDecode policiesValid (shapeOf .TPolicies) (bcEnc (ser p) ++ rest) = some (ser p, rest) := by
+  have hs := policies_ser_hasShape p h hb hv
+  apply real_type_decode_roundtrip .TPolicies (ser p) rest ((hasShapeB_iff _ _).mpr hs)
+  have hshape : shapeOf .TPolicies =
+      .sel allMask legacyMaskSeq (.tuple (List.replicate 4 .u64)) (.seq .u64) := rfl
+  have hvalid : policiesValid (ser p) = true := by simp [policiesValid, policies_serde_roundtrip_seq p h]
+  rw [hshape]
+  rw [PoliciesJson.ser_eq] at hvalid ⊢
+  simp only [leavesOk, hvalid, Bool.true_and]
+  split
+  · exact (leavesOk_values _ _).1
+  · exact (leavesOk_values _ _).2
+
+/-- whatever bytes either binary format accepts as `Policies` decode to a stable value: decoding is a
+retraction onto the values that round-trip (with `policies_postcard_roundtrip`: decode ∘ encode ∘ decode = decode) -/
+theorem policies_wire_image_stable (dec : Shape → Bytes → Option (Tree × Bytes)) (bs r : Bytes) (p : Policies)
+    (h : policiesFromWire dec bs = some (p, r)) : Stable p := by
+  unfold policiesFromWire at h
+  split at h
+  · rename_i t r' _
+    cases hd : deSeq t with
+    | error e => simp [hd] at h
+    | ok q =>
+      simp only [hd, Option.some.injEq, Prod.mk.injEq] at h
+      rw [← h.1]
+      exact deSeq_image_stable t q hd
+  · simp at h
+
+/-! ### (6) Policies through serde_json (`visit_map`; bitflags text format) -/
+
+/-- the bitflags text format round-trips for all 64 masks of defined flags ("Tip | MaxFee" ...; complete
+table, `decide +kernel`) -/
+theorem policies_bits_text_roundtrip (b : Nat) (h : b < 64) : charsToBits (bitsToChars b) = some b :=
+  bits_text_roundtrip b h
+
+/-- **`serde_json::from_str::<Policies>(serde_json::to_string(&p)) == p`** at the level of the JSON object
+(fields in document order, `bits` as bitflags text, `values` as an array of numbers), for all 64 masks and
+every stable value array -/
+theorem policies_json_roundtrip (p : Policies) (h : Stable p) (hb : p.bits < 64)
+    (hv : ∀ v ∈ p.values, v < 2 ^ 64) : deJson (serJson p) = .ok p := by
+  have hseq := policies_serde_roundtrip_seq p h
+  rw [ser_eq] at hseq
+  have hm : legacyMaskMap = legacyMaskSeq := by decide
+  have hm' : legacyMaskSer = legacyMaskSeq := by decide
+  simp only [deSeq] at hseq
+  have hnums : numsOf ((if isLegacy legacyMaskSer p.bits = true then p.values.take 4
+      else gather p.bits p.values flagBits).map JElem.num) =
+      some (if isLegacy legacyMaskSer p.bits = true then p.values.take 4 else gather p.bits p.values flagBits) := by
+    apply numsOf_map
+    intro v hv'
+    split at hv'
+    · exact hv v (List.mem_of_mem_take hv')
+    · exact hv v (gather_mem _ _ _ v hv')
+  have htree : (if isLegacy legacyMaskSeq p.bits = true then
+        Tree.tuple ((if isLegacy legacyMaskSer p.bits = true then p.values.take 4
+          else gather p.bits p.values flagBits).map Tree.u64)
+      else Tree.seq ((if isLegacy legacyMaskSer p.bits = true then p.values.take 4
+          else gather p.bits p.values flagBits).map Tree.u64)) = valuesTree p := by
+    unfold valuesTree
+    rw [hm']
+    split <;> rfl
+  cases hd : decodeValues legacyMaskSeq p.bits (valuesTree p) .wrongType with
+  | error e => simp [hd] at hseq
+  | ok vals =>
+    simp only [hd, Except.ok.injEq] at hseq
+    simp only [deJson, serJson, deJsonAux, policies_bits_text_roundtrip p.bits hb, decodeValuesJson, hnums, hm,
+      htree, hd]
+    simpa using hseq
+
+/-- an object whose `values` field comes before `bits` is rejected, whatever the fields contain -/
+theorem json_values_before_bits_rejected (v : JVal) (rest : List (String × JVal)) :
+    deJson (("values", v) :: rest) = .error .bitsBeforeValues := by
+  simp [deJson, deJsonAux]
+
+/-- duplicate fields are rejected -/
+theorem json_duplicate_rejected (cs : List Char) (b : Nat) (hb : charsToBits cs = some b) (v v' w : JVal)
+    (vals : List Nat) (hvals : decodeValuesJson legacyMaskMap b v = .ok vals) (rest : List (String × JVal)) :
+    deJson (("bits", .str cs) :: ("bits", w) :: rest) = .error .duplicateBits ∧
+    deJson (("bits", .str cs) :: ("values", v) :: ("values", v') :: rest) = .error .duplicateValues := by
+  constructor
+  · simp [deJson, deJsonAux, hb]
+  · simp [deJson, deJsonAux, hb, hvals]
+
+/-- missing fields are rejected; unknown fields are skipped -/
+theorem json_missing_rejected (cs : List Char) (b : Nat) (hb : charsToBits cs = some b) :
+    deJson [] = .error .missingBits ∧ deJson [("bits", .str cs)] = .error .missingValues := by
+  constructor
+  · simp [deJson, deJsonAux]
+  · simp [deJson, deJsonAux, hb]
+
+theorem json_unknown_field_ignored (k : String) (hk : k ≠ "bits" ∧ k ≠ "values") (v : JVal)
+    (fields : List (String × JVal)) : deJson ((k, v) :: fields) = deJson fields := by
+  simp [deJson, deJsonAux, hk.1, hk.2]
+
 /-! ### non-vacuity -/
 example : Stable ⟨0b110101, [7, 0, 9, 0, 11, 13]⟩ := by
   apply canonical_stable; exact ⟨by decide, by simp [UnsetZero, flagBits, flags]; decide⟩
@@ -200,5 +409,27 @@ example : deSeq (ser ⟨0b100000, [1, 0, 0, 0, 0, 5]⟩) = .ok ⟨0b100000, [0, 
 example : HasShape (.tuple [.u32, .seq .u64]) (.tuple [.u32 53, .seq [.u64 7, .u64 9, .u64 11, .u64 13]]) := by
   simp [HasShape, ListShape, AllShape]
 example : pcEnc (.tuple [.u32 300, .seq [.u64 1]]) = [0xAC, 0x02, 0x01, 0x01] := by rfl
+-- the generated shapes are the ones the real types have: TxPointer = (BlockHeight(u32), u16); UtxoId = (Bytes32, u16)
+example : shapeOf .TTxPointer = .tuple [.u32, .u16] := rfl
+example : HasShape (shapeOf .TTxPointer) (.tuple [.u32 7, .u16 9]) := by
+  simp [shapeOf, sTxPointer, sBlockHeight, HasShape, ListShape]
+example : pcDec (shapeOf .TTxPointer) [0x07, 0x09, 0xAA] = some (.tuple [.u32 7, .u16 9], [0xAA]) := by rfl
+-- a compact-layout Policies (Owner set) end to end through the generated shape, with a trailing byte left over
+example : policiesFromWire pcDec (policiesToWire pcEnc ⟨0b100001, [7, 0, 0, 0, 0, 5]⟩ ++ [0xEE]) =
+    some (⟨0b100001, [7, 0, 0, 0, 0, 5]⟩, [0xEE]) := by rfl
+example : policiesToWire pcEnc ⟨0b100001, [7, 0, 0, 0, 0, 5]⟩ = [0x21, 0x02, 0x07, 0x05] := by rfl
+-- a value count that does not match the bits is rejected by `visit_seq` although the bytes have the shape
+example : policiesFromWire pcDec [0x21, 0x01, 0x07] = none := by rfl
+example : (pcDec (shapeOf .TPolicies) [0x21, 0x01, 0x07]).isSome = true := by rfl
+-- JSON: text of the bits, the object, and a reordered object
+example : String.ofList (bitsToChars 0b101001) = "Tip | MaxFee | Owner" := by decide
+example : charsToBits " Tip|MaxFee | 0x+40 ".toList = some 73 := by decide
+example : charsToBits "Tip | ".toList = none := by decide
+example : deJson (serJson ⟨0b100001, [7, 0, 0, 0, 0, 5]⟩) = .ok ⟨0b100001, [7, 0, 0, 0, 0, 5]⟩ := by rfl
+example : deJson [("values", .arr [.num 1]), ("bits", .str "Owner".toList)] = .error .bitsBeforeValues := by rfl
+example : deJson [("bits", .str "Owner".toList), ("x", .other), ("values", .arr [.num 1])] = .ok ⟨32, [0, 0, 0, 0, 0, 1]⟩ := by rfl
+-- out-of-range variant index / bad option tag are rejected
+example : pcDec (shapeOf .TOutput) [0x05] = none := by rfl
+example : pcDec (.option .u8) [0x02, 0x00] = none := by rfl
 
 end FuelVerif.C06
